@@ -107,6 +107,12 @@ def _last(y, m):
     return civil_len(y, m)
 
 
+def _full(t):
+    """(y, m, d, h, mi, s) -> (y, m, d + fraction)"""
+    y, m, d, h, mi, s = t
+    return (y, m, d + (h * 3600 + mi * 60 + s) / 86400.0)
+
+
 @P.ground_check("readback-utc/stated-domain",
                 functions=[EPOCH + ".get_date", EPOCH + ".get_full_date", EPOCH + ".get_doy", EPOCH + ".doy2date"])
 def g_readback(tier):
@@ -122,12 +128,12 @@ def g_readback(tier):
                     ok1 = abs(off - want) < 1e-3
                     yy, mm, dd = e.get_date(utc=True)
                     frac = (hh * 3600 + mi * 60 + ss) / 86400.0
-                    ok2 = _same_instant(y, m, d, frac, (yy, mm, dd))
+                    ok2 = _same_instant(y, m, d, frac, (yy, mm, dd)) and _same_instant(y, m, d, frac, _full(e.get_full_date(utc=True)))
                     yield ((y, m, d, hh, mi, ss), ok1 and ok2,
                            "offset %.3f want %.3f; read back %r" % (off, want, (yy, mm, dd)))
 
 
-@P.ground_check("override/both-directions", functions=[EPOCH + ".get_date"])
+@P.ground_check("override/both-directions", functions=[EPOCH + ".get_date", EPOCH + ".get_full_date"])
 def g_override(tier):
     from pymeeus.Epoch import Epoch
     dates = [(1972, 1, 1), (1972, 6, 30), (1972, 7, 1), (1980, 2, 29), (1999, 12, 31), (2016, 12, 31),
@@ -138,16 +144,19 @@ def g_override(tier):
                 e = Epoch(y, m, d, hh, mi, ss, leap_seconds=k)
                 plain = Epoch(y, m, d, hh, mi, ss)
                 off = (e.jde() - plain.jde()) * 86400.0
-                # leap_seconds=0 is documented as "conversion disabled": only consistency is required
-                want = (42.184 + k) if (y >= 1972 and k != 0) else 0.0
+                # the property asks for 42.184 s + k for every override k in 0..60; the library documents leap_seconds=0 as
+                # 'not given' and applies no correction at all: recorded as a known finding (known_findings.json), not excused here
+                want = (42.184 + k) if y >= 1972 else 0.0
                 ok1 = abs(off - want) < 1e-3
                 yy, mm, dd = e.get_date(leap_seconds=k)
                 frac = (hh * 3600 + mi * 60 + ss) / 86400.0
-                ok2 = _same_instant(y, m, d, frac, (yy, mm, dd))
+                # (the read-back through get_full_date takes the same keywords and must give the same instant)
+                ok2 = _same_instant(y, m, d, frac, (yy, mm, dd)) and _same_instant(y, m, d, frac, _full(e.get_full_date(leap_seconds=k)))
                 if k:
                     e2 = Epoch(y, m, d, hh, mi, ss, utc=True, leap_seconds=k)
                     ok1 = ok1 and abs((e2.jde() - plain.jde()) * 86400.0 - want) < 1e-3
-                    ok2 = ok2 and _same_instant(y, m, d, frac, e2.get_date(utc=True, leap_seconds=k))
+                    ok2 = ok2 and _same_instant(y, m, d, frac, e2.get_date(utc=True, leap_seconds=k)) \
+                        and _same_instant(y, m, d, frac, _full(e2.get_full_date(utc=True, leap_seconds=k)))
                 yield ((y, m, d, hh, mi, ss, k), ok1 and ok2,
                        "offset %.3f want %.3f; read back %r" % (off, want, (yy, mm, dd)))
 
